@@ -228,6 +228,11 @@ func c10Forge(w *crlWorld, entries []c10Entry, delta bool, hasDelta bool) *x509.
 	return rl
 }
 
+var (
+	c10EmptyDeltaOnce sync.Once
+	c10EmptyDelta     *x509.RevocationList
+)
+
 func c10Body(c *mc.Ctx, alpha []c10Entry, L, split int, stSet bool) {
 	w := c10World()
 	entries := make([]c10Entry, L)
@@ -240,6 +245,17 @@ func c10Body(c *mc.Ctx, alpha []c10Entry, L, split int, stSet bool) {
 	var delta *x509.RevocationList
 	if hasDelta {
 		delta = c10Forge(w, entries[split:], true, true)
+	}
+	if hasDelta && L <= 2 {
+		// the same base CRL was checked a moment ago with the delta that was current then (an empty one): what a check learnt from an
+		// earlier bundle must not answer for a newer delta over the same base
+		c10EmptyDeltaOnce.Do(func() { c10EmptyDelta = c10Forge(w, nil, true, true) })
+		pf := netsim.FetcherFunc(func(ctx context.Context, u string) (*corecrl.Bundle, error) {
+			return &corecrl.Bundle{BaseCRL: base, DeltaCRL: c10EmptyDelta}, nil
+		})
+		if pv, err := revocation.NewWithOptions(revocation.Options{OCSPHTTPClient: noNetClient, CRLFetcher: pf, CertChainPurpose: purpose.CodeSigning}); err == nil {
+			callValidate(pv, context.Background(), revocation.ValidateContextOptions{CertChain: []*x509.Certificate{w.leaf.X, w.root.X}})
+		}
 	}
 	fetcher := netsim.FetcherFunc(func(ctx context.Context, u string) (*corecrl.Bundle, error) {
 		return &corecrl.Bundle{BaseCRL: base, DeltaCRL: delta}, nil
